@@ -52,6 +52,9 @@ def gate_cuts(k: Kit, fi, frag) -> List[int]:
                     v = k.idx.fold(fi.module, e)
                     if isinstance(v, int) and not isinstance(v, bool):
                         cuts.add(v)
+                    elif isinstance(v, (tuple, frozenset, set, list)):
+                        cuts |= {x for x in v if isinstance(x, int) and
+                                 not isinstance(x, bool)}
     return sorted(cuts)
 
 
@@ -71,7 +74,8 @@ def r1(k: Kit) -> None:
     if not need <= set(cuts):
         rep.error('C06.R1', 'cuts', f'gate no longer compares pkttype with '
                   f'{sorted(need - set(cuts))}')
-    ptypes = int_classes(set(cuts) | {1, 5, 6, 7, 20, 21, 50, 53, 80, 90, 100},
+    ptypes = int_classes(set(cuts) | {1, 2, 3, 4, 5, 6, 7, 20, 21, 50, 53, 80,
+                                      90, 100},
                          1, 255)
     KEX_F, KEX_L = 30, 49
     UA_F, UA_L = 60, 79
